@@ -19,6 +19,9 @@
 // DEALINGS IN THE SOFTWARE.
 
 mod peers;
+#[cfg(libp2p_verif)]
+#[doc(hidden)]
+pub mod verif_kad_q;
 
 use std::{num::NonZeroUsize, time::Duration};
 
